@@ -429,6 +429,66 @@ def machine_finish(ctx, started):
     ctx.note("bisc_machine", {"inputs": nfam, "final_states_matching_real_mine_forb_bisc": nsame, "inputs_with_every_mining_order": nsmall})
 
 
+# ---- the clean-up phase as a machine (C17_CleanUp) ------------------------------------------------------------------------
+def cleanup_case(cid, SG, Bd, bm, lim, bases, d, A):
+    """The input of one real run_clean_up call in the machine's terms, and what the call returned."""
+    keys = sorted(SG.keys())
+    pats = [(tuple(p), frozenset(map(tuple, R))) for n in SG for p in SG[n] for R in SG[n][p]]
+    bad = [tuple(q) for L in range(min(keys) + 1, bm + 1) for q in Bd.get(L, [])]
+    real = {frozenset((tuple(d[i][0]), frozenset(map(tuple, d[i][1]))) for i in b) for b in bases}
+    return {"id": cid, "keys": keys, "pats": pats, "bad": bad, "limit": lim, "real": real, "A": [list(a) for a in A]}
+
+
+def cleanup_machine_start(cases):
+    import concurrent.futures
+    jobs = []
+    nsh = 8
+    for sh in range(nsh):
+        part = cases[sh::nsh]
+        if not part:
+            continue
+        recs = []
+        for c in part:
+            sg = "{" + ", ".join("[p |-> %s, R |-> {%s}]" % (tlc.tla(list(p)), ", ".join(tlc.tla(list(x)) for x in sorted(R))) for p, R in c["pats"]) + "}"
+            recs.append("[id |-> %d, SG |-> %s, keys |-> {%s}, bad |-> << %s >>, limit |-> %d]" % (
+                c["id"], sg, ", ".join(map(str, c["keys"])), ", ".join(tlc.tla(list(q)) for q in c["bad"]), c["limit"]))
+        mod = util.mc_module("MC_C17C", "C17_CleanUp", {"InputsDef": "{" + ",\n ".join(recs) + "}"})
+        cfgt = util.cfg(init="Init", next_="Next", invariants=["TypeOK", "CandidatesHitEveryTestedBad", "Antichain", "WithinLimit", "EmitEnd"],
+                        constants={"Inputs": ("<-", "InputsDef")})
+        jobs.append(("MC_C17C", cfgt, {"files": {"MC_C17C.tla": mod}, "timeout": 3000}))
+    ex = concurrent.futures.ThreadPoolExecutor(max_workers=1)
+    return ex, ex.submit(tlc.run_many, jobs, 8)
+
+
+def cleanup_machine_finish(ctx, started, cases):
+    """TLC has run the clean-up machine on the recorded inputs (every candidate hits every tested bad permutation, at every
+    step); its final families against the bases the real run_clean_up returned (mechanism level: drift)."""
+    ex, fut = started
+    results = fut.result()
+    ex.shutdown(wait=False)
+    by_id = {c["id"]: c for c in cases}
+    seen = same = 0
+    for r in results:
+        ctx.add_tlc(r, "clean-up machine: candidates hit every tested bad permutation")
+        for rec in r.records:
+            if "bases" not in rec:
+                continue
+            seen += 1
+            c = by_id[rec["id"]]
+            model = {frozenset((tuple(e["p"]), frozenset(map(tuple, e["R"]))) for e in b) for b in rec["bases"]}
+            ok = model == c["real"]
+            same += ok
+            ctx.case(("cleanup-machine", json.dumps(c["A"])), nontrivial=bool(model))
+            if not ok:
+                ctx.drift("clean-up machine and run_clean_up differ on A = %s, limit %d: %d / %d bases (mechanism level)" % (
+                    c["A"], c["limit"], len(model), len(c["real"])))
+            if seen == 3:
+                ctx.sample({"machine": "C17_CleanUp", "A": c["A"], "limit": c["limit"], "end": rec["end"], "bases": rec["bases"][:2]})
+    if seen != len(cases):
+        raise tlc.MachineryFailure("C17: clean-up machine ended %d times for %d inputs" % (seen, len(cases)))
+    ctx.note("cleanup_machine", {"inputs": len(cases), "final_families_equal_to_run_clean_up": same})
+
+
 # ---- the automatic driver on many properties defined by mesh patterns, sixteen interpreters side by side ---------------------
 AUTO_CHILD = r"""
 import contextlib, io, json, sys
@@ -618,6 +678,7 @@ def run(ctx):
     # bad permutation it was tested on (all bad permutations up to bm)
     small4 = [p for k in range(5) for p in util.perms_of(k)]
     ncu = nvar = 0
+    cleanup_cases = []
     for it in range(20000 if quick else 100000):
         dens = rnd.choice([0.25, 0.4, 0.55, 0.7])
         A = [p for p in small4 if rnd.random() < dens]
@@ -634,11 +695,14 @@ def run(ctx):
         st, SG = util.call(quiet, bisc, Ad, mcase, ncase)
         if st == "raise" or not SG or all(not v for v in SG.values()):
             continue
-        st, res = util.call(quiet, run_clean_up, SG, Bd, ncase, limit_monitors=rnd.choice([1, 2, 3, 4, 5, 6]))
+        lim = rnd.choice([1, 2, 3, 4, 5, 6])
+        st, res = util.call(quiet, run_clean_up, SG, Bd, ncase, limit_monitors=lim)
         if st == "raise":
             ctx.violation({"kind": "cleanup", "A": [list(a) for a in A]}, "NoException", "bases", res)
             continue
         bases, d = res
+        if len(cleanup_cases) < (60 if quick else 600) and it % 7 == 0:
+            cleanup_cases.append(cleanup_case(len(cleanup_cases) + 1, SG, Bd, ncase, lim, bases, d, A))
         for b in bases[:8]:
             ncu += 1
             low = min(SG.keys())        # the clean-up tests bad permutations from the shortest learned length on
@@ -646,6 +710,7 @@ def run(ctx):
                            "meta": {"A": [list(a) for a in A]}})
         if it % (40 if quick else 20) == 0:      # the same output object once more, with the arguments given differently
             nvar += cleanup_variants(ctx, rnd, events, SG, Bd, ncase, A)
+    cleanup_started = cleanup_machine_start(cleanup_cases)
     ctx.note("cleanup_bases_on_random_sets", ncu)
     ctx.note("cleanup_bases_from_argument_variants", nvar)
     lap("clean-up phase")
@@ -666,7 +731,8 @@ def run(ctx):
                                                         ntraces=len(ch), timeout=3000), chunks))
     lap("trace validation")
     machine_finish(ctx, machine_started)
-    lap("BiSC machine against mine / forb / bisc")
+    cleanup_machine_finish(ctx, cleanup_started, cleanup_cases)
+    lap("BiSC machine against mine / forb / bisc, clean-up machine against run_clean_up")
     ops = {}
     known = ctx.known_entry(DUP_SITE, DUP_DEV)
     ndup = 0
